@@ -588,6 +588,13 @@ func StructFieldsAsOptionsAction(explicitFields ...string) RewriteAction {
 
 			newOpt.Assignments[0].Path = assignmentPathPrefix.Append(newOpt.Assignments[0].Path)
 
+			// what the option sets besides its argument is still set
+			for i, assignment := range option.Assignments {
+				if i != target && assignment.Value.Constant != nil {
+					newOpt.Assignments = append(newOpt.Assignments, assignment.DeepCopy())
+				}
+			}
+
 			if field.Type.Default != nil {
 				newOpt.Default = &ast.OptionDefault{
 					ArgsValues: []any{field.Type.Default},
